@@ -25,6 +25,8 @@ type ctx struct {
 	buf   []byte
 	desc  *dproto.TypeDescriptor
 	rv    generic.Value
+	// desc: the top-level fields are on the wire in descending number order (same message)
+	descending bool
 }
 
 func hx(b []byte) string {
@@ -266,7 +268,11 @@ func (c *ctx) judge(op, trig string, n generic.Node, want *pbref.Val, pl place, 
 		return false
 	}
 	// span: the node must be exactly the element's bytes
-	if exp := c.s.NodeBytes(want, pl.holder, pl.f, pl.isRoot); !bytes.Equal(raw, exp) {
+	exp := c.s.NodeBytes(want, pl.holder, pl.f, pl.isRoot)
+	if pl.isRoot && c.descending {
+		exp = c.buf
+	}
+	if !bytes.Equal(raw, exp) {
 		bad("span-differs", "node spans %s, the element is %s", hx(raw), hx(exp))
 	}
 	return ok
@@ -285,6 +291,9 @@ func (c *ctx) call(op, trig, where string, f func()) bool {
 func (c *ctx) run(fam string) {
 	c.root = pbref.Normalize(c.root)
 	c.buf = c.s.Encode(c.root)
+	if c.descending {
+		c.buf = pbref.DescendingTop(c.buf)
+	}
 	back, err := c.s.Decode(c.buf, c.s.Root)
 	if err != nil || !pbref.Equal(back, c.root) {
 		panic(fmt.Sprintf("harness: model disagrees with the reference decoder: %v %s vs %s", err, back, c.root))
